@@ -141,7 +141,13 @@ class Engine:
             if wb is None or we is None:
                 return None, "markers not found in trace"
             ev = {o["ev"]: o for o in outs}
-            return dict(main=main, wb=wb, we=we, ev=ev), None
+            live_name = b"/cache.json" if case["script"]["mode"] == "cache" else b"/secrets.db"
+            live_fds = set()
+            for e in entries:
+                if e["name"] == "openat" and e["strs"] and e["strs"][0].endswith(live_name) and e["ret"] and e["ret"].isdigit():
+                    if any(f in e["raw"] for f in ("O_WRONLY", "O_RDWR")):
+                        live_fds.add(e["ret"])
+            return dict(main=main, wb=wb, we=we, ev=ev, live_fds=live_fds), None
         finally:
             shutil.rmtree(d, ignore_errors=True)
 
@@ -167,11 +173,13 @@ class Engine:
                         bad.append("temporary file created with mode 0%s (secret-bearing files must be owner-only)" % m.group(1))
             elif n in ("write", "pwrite64"):
                 fd = e["raw"].split(",")[0].strip()
-                if tmpfd is None or fd != tmpfd:
-                    if fd not in ("1", "2"):
-                        bad.append("write to descriptor %s which is not the temporary file" % fd)
-                else:
+                if tmpfd is not None and fd == tmpfd:
                     last_write = i
+                elif fd in rec.get("live_fds", set()):
+                    # (descriptors the Go runtime writes to on this thread -
+                    # eventfd wake-ups, pipes - are none of our business; only a
+                    # descriptor opened on the live path counts)
+                    bad.append("write to descriptor %s, which was opened on the live file" % fd)
             elif n in ("fsync", "fdatasync"):
                 fd = e["raw"].split(")")[0].strip()
                 if fd == tmpfd:
